@@ -92,6 +92,10 @@ DoStore(S, a) == LET ob == S.objs[a.x]
 \* x[j] = value: in place, through the buffer
 DoSetItem(S, a) == LET ob == S.objs[a.x]  q == Q(a.k4, ob.fmt, ob.cfg)
                    IN SetSt(Poke(S, a.x, a.j, q.code), a.x, OrSt(ob.st, FoldQ(<<q>>)))
+\* x[j] = y (y a one-element fixed-point object): converted into x's format under x's modes, in place; x inherits y's inaccuracy
+DoSetItemFxp(S, a) == LET ob == S.objs[a.x]  oy == S.objs[a.y]
+                          q == N!Convert(oy.codes[1], oy.fmt, ob.fmt, ob.cfg.rnd, ob.cfg.ovf)
+                      IN SetSt(Poke(S, a.x, a.j, q.code), a.x, OrSt(OrSt(ob.st, [o |-> FALSE, u |-> FALSE, i |-> oy.st.i]), FoldQ(<<q>>)))
 \* y = x[sel]: a VIEW of the values (sel: "one" = x[j:j+1], "rev" = x[::-1] strided, "all" = x[:]); own copy of the Config, fresh status
 ViewMap(ob, a) == CASE a.sel = "one" -> <<a.j>> [] a.sel = "rev" -> [k \in DOMAIN ob.codes |-> Len(ob.codes) + 1 - k]
                     [] a.sel = "all" -> [k \in DOMAIN ob.codes |-> k]
@@ -176,6 +180,7 @@ DoDrop(S, a) == Forget(Put(S, a.x, NULL), a.x)
 
 Step(S, a) == CASE a.act = "New" -> DoNew(S, a)           [] a.act = "Store" -> DoStore(S, a)
                 [] a.act = "SetItem" -> DoSetItem(S, a)   [] a.act = "GetItem" -> DoGetItem(S, a)
+                [] a.act = "SetItemFxp" -> DoSetItemFxp(S, a)
                 [] a.act = "CtorLike" -> DoCtorLike(S, a) [] a.act = "Like" -> DoLike(S, a)
                 [] a.act = "LikeShallow" -> DoLikeShallow(S, a)
                 [] a.act = "CopyShallow" -> DoCopyShallow(S, a) [] a.act = "DeepCopy" -> DoDeepCopy(S, a)
@@ -189,6 +194,8 @@ Step(S, a) == CASE a.act = "New" -> DoNew(S, a)           [] a.act = "Store" -> 
 \* callbacks a recorder registered on the written object sees during the step
 CbStep(S, a) == CASE a.act = "Store" -> CbOf(FoldQ([j \in DOMAIN a.ks |-> Q(a.ks[j], S.objs[a.x].fmt, S.objs[a.x].cfg)]))
                   [] a.act = "SetItem" -> CbOf(FoldQ(<<Q(a.k4, S.objs[a.x].fmt, S.objs[a.x].cfg)>>))
+                  [] a.act = "SetItemFxp" -> CbOf(FoldQ(<<N!Convert(S.objs[a.y].codes[1], S.objs[a.y].fmt, S.objs[a.x].fmt,
+                                                                    S.objs[a.x].cfg.rnd, S.objs[a.x].cfg.ovf)>>))
                   [] OTHER -> <<>>
 
 (************************** enabled actions (small scope) ******************)
@@ -207,6 +214,8 @@ Enabled(S) ==
      IF "Store" \in Acts THEN UNION { { [act |-> "Store", x |-> x, ks |-> IF LenOf(S, x) = 2 THEN <<k1, k2>> ELSE <<k1>>] :
           k1 \in Grid(S.objs[x].fmt), k2 \in (IF LenOf(S, x) = 2 THEN Grid(S.objs[x].fmt) ELSE {0}) } : x \in Live(S) } ELSE {},
      IF "SetItem" \in Acts THEN UNION { { [act |-> "SetItem", x |-> x, j |-> j, k4 |-> k] : j \in DOMAIN S.objs[x].codes, k \in Grid(S.objs[x].fmt) } : x \in Live(S) } ELSE {},
+     IF "SetItemFxp" \in Acts THEN { r \in { [act |-> "SetItemFxp", x |-> x, j |-> j, y |-> y] : x \in Live(S), j \in 1..2, y \in Live(S) } :
+          r.x # r.y /\ r.j \in DOMAIN S.objs[r.x].codes /\ LenOf(S, r.y) = 1 } ELSE {},
      IF "GetItem" \in Acts THEN UNION { { [act |-> "GetItem", y |-> y, x |-> x, j |-> j, sel |-> "one"] : y \in { z \in Obj : Free(S, z) }, j \in DOMAIN S.objs[x].codes }
                                         \cup { [act |-> "GetItem", y |-> y, x |-> x, j |-> 0, sel |-> sl] : y \in { z \in Obj : Free(S, z) }, sl \in {"rev", "all"} } :
           x \in { z \in Live(S) : LenOf(S, z) = 2 } } ELSE {},
@@ -258,7 +267,7 @@ WellFormed == \A x \in Live(st) : \A j \in DOMAIN st.objs[x].codes : N!InRange(s
 NoSharedConfig == st.csh = {} /\ st.ssh = {}
 ViewsOnly == \A b \in st.mem : \A e1 \in b, e2 \in b : st.objs[e1[1]].codes[e1[2]] = st.objs[e2[1]].codes[e2[2]]
 \* C20 (behavioural): a step changes what OTHER objects show only through shared memory of an indexed write
-Target(l) == IF l.act \in {"New", "Store", "SetItem", "Resize", "Reset", "SetCfg", "SetCfgBad", "Assign", "Drop"} THEN l.x
+Target(l) == IF l.act \in {"New", "Store", "SetItem", "SetItemFxp", "Resize", "Reset", "SetCfg", "SetCfgBad", "Assign", "Drop"} THEN l.x
              ELSE IF l.act = "BinOpOut" THEN l.z
              ELSE IF l.act \in {"GetItem", "CtorLike", "Like", "LikeShallow", "CopyShallow", "DeepCopy", "RShiftKeep", "Invert"} THEN l.y
              ELSE IF l.act \in {"BinOp", "Neg"} THEN l.z ELSE NULL
@@ -272,6 +281,7 @@ ViewWriteThrough == [][ (last'.act = "SetItem") =>
 BadConfigRejected == [][ last'.act = "SetCfgBad" => st' = st ]_vars
 \* C04: flags are sticky until reset()
 Creates(l) == l.act \in {"New", "GetItem", "CtorLike", "Like", "LikeShallow", "CopyShallow", "DeepCopy", "BinOp", "Neg", "Drop", "RShiftKeep", "Invert"}
+\* (SetItemFxp is a write: flags sticky, callbacks exact)
 Sticky == [][ \A p \in Obj : (/\ st.objs[p] # NULL /\ st'.objs[p] # NULL
                                /\ ~(Creates(last') /\ Target(last') = p)           \* p is the same object before and after
                                /\ last'.act # "Reset")
